@@ -293,12 +293,19 @@ lbool MainSolver::getTermValue(PTRef tr) const {
     if (status != s_True) { throw ApiException("Assignment cannot be created if solver is not in SAT state"); }
 
     if (logic.getSortRef(tr) != logic.getSort_bool()) { return l_Undef; }
-    if (not term_mapper->hasLit(tr)) { return l_Undef; }
-
-    Lit l = term_mapper->getLit(tr);
-    auto val = smt_solver->modelValue(l);
-    assert(val != l_Undef);
-    return val;
+    if (term_mapper->hasLit(tr)) {
+        Lit l = term_mapper->getLit(tr);
+        auto val = smt_solver->modelValue(l);
+        if (val != l_Undef) { return val; }
+    }
+    // The term is not known to the SAT solver (e.g., it has been simplified away) or has not been assigned;
+    // evaluate it in the model
+    if (not config.produce_models()) { return l_Undef; }
+    ModelBuilder modelBuilder{logic};
+    smt_solver->fillBooleanVars(modelBuilder);
+    thandler->fillTheoryFunctions(modelBuilder);
+    PTRef const val = modelBuilder.build()->evaluate(tr);
+    return val == logic.getTerm_true() ? l_True : (val == logic.getTerm_false() ? l_False : l_Undef);
 }
 
 std::unique_ptr<InterpolationContext> MainSolver::getInterpolationContext() {
